@@ -44,6 +44,14 @@ func runCase(r *mon.Rec, idx int, hits map[int]int) {
 	var err error
 	pan, val, st := mon.Guard(func() {
 		wire = m.ToBytes()
+		// a receiver has usually seen damaged datagrams before this one: decode two cut-off copies first (their
+		// verdicts are C05's business); what they leave behind must not matter
+		if len(wire) > 8 {
+			crng := r.Rand("c02.cut", idx)
+			for k := 0; k < 2; k++ {
+				dhcpv6.FromBytes(append([]byte{}, wire[:1+crng.IntN(len(wire)-1)]...))
+			}
+		}
 		m2, err = dhcpv6.FromBytes(wire)
 	})
 	if len(wire) <= 1500 {
@@ -67,6 +75,12 @@ func runCase(r *mon.Rec, idx int, hits map[int]int) {
 		r.Violate("C02:roundtrip-mismatch:"+tree.KindAt(ws, got), "decoded value differs from the value encoded: "+tree.Diff(ws, got), rp)
 		return
 	}
+	defer func() { // after everything else has been judged: the decoded message is the caller's (see mon.Scribble)
+		mon.Scribble(m2)
+		if ch := mon.CanariesChanged(); len(ch) > 0 {
+			r.Violate("C02:result-aliases-global", fmt.Sprintf("writing into the decoded message changed process-wide values %v", ch), rp)
+		}
+	}()
 	// Oracle B: independent decoder on the emitted bytes
 	res := ref6.Decode(wire)
 	switch res.V {
